@@ -310,8 +310,6 @@ class MessageAssembler:
         self.packet_count = 0
 
     def on_pdu(self, pdu: bytes) -> None:
-        self.packet_count += 1
-
         # Drop empty PDUs sent by remote — accessing pdu[0] below would
         # raise IndexError, propagating up to the L2CAP read loop and
         # tearing down the channel. Same class as #912 (ATT empty PDU).
@@ -357,6 +355,7 @@ class MessageAssembler:
                 )
                 self.reset()
 
+            self.packet_count = 1
             self.transaction_label = transaction_label
             self.signal_identifier = SignalIdentifier(pdu[1] & 0x3F)
             self.message_type = message_type
@@ -389,6 +388,7 @@ class MessageAssembler:
                 )
                 return
 
+            self.packet_count += 1
             self.message = (self.message or b'') + pdu[1:]
 
             if packet_type == Protocol.PacketType.END_PACKET:
@@ -1558,11 +1558,16 @@ class Protocol(utils.EventEmitter):
             else:
                 header = bytes([first_header_byte])
 
-            # Send one packet
-            self.l2cap_channel.write(header + payload[:max_fragment_size])
+            # Send one packet (a single packet carries the whole payload)
+            fragment_size = (
+                len(payload)
+                if packet_type == self.PacketType.SINGLE_PACKET
+                else max_fragment_size
+            )
+            self.l2cap_channel.write(header + payload[:fragment_size])
 
             # Prepare for the next packet
-            payload = payload[max_fragment_size:]
+            payload = payload[fragment_size:]
             if payload:
                 packet_type = (
                     self.PacketType.CONTINUE_PACKET
